@@ -62,6 +62,31 @@ CLAIMED = {
         note="Trusted: TLC, scipy QZ/numpy primitives. Bounds: the library (rational roots, <= 2 states, lag/lead 1, log-variables, measurement with a "
              "lagged state), 4 periods, shocks in {-1,1,2}. Complex roots, larger models and arbitrary parameters are out of bound.",
         design="5/C01", technique="TLA+ spec (ModelLib, LinearRE) model-checked by TLC in exact rational arithmetic; every TLC-generated behaviour replayed into irispie"),
+    "C05": dict(
+        text="SteadyMC.tla holds a library of models with their exact steady solutions (levels and changes) as certificates that are not trusted: TLC "
+             "checks in exact rational arithmetic that every steady equation is zero on the path level + change*k (level*change^k for log-variables) "
+             "at k = 0..3 (Inv_SteadyEqHold) and that quantities fixed or swapped by a steady plan keep their values (Inv_PlanRespected). The source "
+             "emitted by the spec is solved by solve_steady in every configuration (split_into_blocks default/True/False, one and two variants); "
+             "levels, changes and endogenized parameters are compared with the certificate and every steady equation is re-evaluated on the stored "
+             "path at several dates with the harness' own tree evaluator.",
+        note="Trusted: TLC, the harness' tree evaluator. Bounds: 6 library instances (flat nonlinear two-block; balanced growth with log-variables "
+             "and fix_level; linear growth; linear forward-looking; log-linear with lag/lead 2 under linear=True; exogenize-variable/endogenize-parameter "
+             "plan). The statement is conditional on solve_steady completing; Newton convergence is not decided. One known finding (linear models ignore "
+             "steady plans).",
+        design="5/C05", technique="TLA+ spec (SteadyMC) model-checked by TLC in exact rational arithmetic; every TLC-verified instance replayed into irispie's solve_steady"),
+    "C06": dict(
+        text="LinearREMC.tla (library incl. a model with a second lead) supplies the exact first-order path, checked by TLC against every structural "
+             "equation; StackedMC.tla supplies nonlinear models whose exact rational solution is designed backwards from the path (anticipated shocks = "
+             "one frame with perfect foresight, unanticipated = one frame per surprise with later surprises pruned), with Inv_DynamicEqHold checked by "
+             "TLC, plus a clause-only model that is nonlinear in its first and second lead. Every scenario is run through simulate(method=stacked_time) "
+             "under terminal x initial_guess in {first_order, data}^2 and period_by_period for backward-looking models: the path is compared with the "
+             "spec path (= first-order path for the linear models), the reported frames with the spec's partition, each frame's databox with the slices "
+             "written back, measurement variables with their inputs, and every equation is re-evaluated frame by frame with the shocks visible in the "
+             "frame and the terminal condition in force.",
+        note="Trusted: TLC, numpy, the neqs Newton solver (success is a precondition; step_tolerance disabled because neqs stops exactly solved systems with "
+             "'cannot make further progress'). Bounds: 6 linear/log-linear models x 144 level scenarios of 4 periods, nonlinear T1/T2/T3 of 3 periods; "
+             "no deviation mode (stacked time has none); plans under stacked_time are exercised in C07.",
+        design="5/C06", technique="TLA+ specs (LinearREMC, StackedMC) model-checked by TLC in exact rational arithmetic; every TLC-computed scenario replayed into irispie's stacked-time and period-by-period simulators"),
     "C07": dict(
         text="PlansMC.tla takes targets from an ordinary LinearRE simulation, endogenizes the same shocks (anticipated or unanticipated, prior "
              "input 0 or 1/2), solves for the instruments through the exact impact matrix and TLC checks that they are the original shocks and that "
